@@ -4,6 +4,11 @@
 pub struct Mmap { _private: () }
 impl Mmap {
     pub uninterp spec fn view(&self) -> Seq<u8>;
+    // memmap2: Deref<Target = [u8]>, so `len()` is the length of the mapped bytes
+    #[verifier::external_body]
+    pub fn len(&self) -> (r: usize)
+        ensures r == self@.len(),
+    { unimplemented!() }
 }
 
 // the page header at byte offset id * pagesize of the map, and the header records that follow it.
